@@ -20,7 +20,7 @@ type c3E struct {
 	A []*c3E `json:"a,omitempty"`
 }
 
-// c3S is a statement.  K: decl ($T = E) set (T = E) ret (> E) expr (E)
+// c3S is a statement.  K: decl ($T = E) set (T = E) ret (> E, or > E :: St) expr (E)
 // if (E ? B : C) while (E, B) for (T in E, B) switch (E; case CV: B; default: C).
 type c3S struct {
 	K  string `json:"k"`
@@ -29,29 +29,31 @@ type c3S struct {
 	CV *c3E   `json:"cv,omitempty"`
 	B  []*c3S `json:"b,omitempty"`
 	C  []*c3S `json:"c,omitempty"`
+	St int    `json:"st,omitempty"` // ret: HTTP status of `> value :: 201` (0 = none)
 }
 
 type c3Prog []*c3S
 
 // ---- constructors ---------------------------------------------------------
 
-func c3Int(n int) *c3E        { return &c3E{K: "int", V: strconv.Itoa(n)} }
-func c3Float(s string) *c3E   { return &c3E{K: "float", V: s} }
-func c3Str(s string) *c3E     { return &c3E{K: "str", V: s} }
-func c3Bool(b bool) *c3E      { return &c3E{K: "bool", V: strconv.FormatBool(b)} }
-func c3Null() *c3E            { return &c3E{K: "null"} }
-func c3Var(n string) *c3E     { return &c3E{K: "var", V: n} }
-func c3Arr(el ...*c3E) *c3E   { return &c3E{K: "arr", A: el} }
+func c3Int(n int) *c3E      { return &c3E{K: "int", V: strconv.Itoa(n)} }
+func c3Float(s string) *c3E { return &c3E{K: "float", V: s} }
+func c3Str(s string) *c3E   { return &c3E{K: "str", V: s} }
+func c3Bool(b bool) *c3E    { return &c3E{K: "bool", V: strconv.FormatBool(b)} }
+func c3Null() *c3E          { return &c3E{K: "null"} }
+func c3Var(n string) *c3E   { return &c3E{K: "var", V: n} }
+func c3Arr(el ...*c3E) *c3E { return &c3E{K: "arr", A: el} }
 func c3Bin(op string, l, r *c3E) *c3E {
 	return &c3E{K: "bin", V: op, A: []*c3E{l, r}}
 }
 func c3Call(name string, args ...*c3E) *c3E { return &c3E{K: "call", V: name, A: args} }
 
-func c3Decl(t string, e *c3E) *c3S { return &c3S{K: "decl", T: t, E: e} }
-func c3Set(t string, e *c3E) *c3S  { return &c3S{K: "set", T: t, E: e} }
-func c3Ret(e *c3E) *c3S            { return &c3S{K: "ret", E: e} }
-func c3Do(e *c3E) *c3S             { return &c3S{K: "expr", E: e} }
-func c3Send(e *c3E) *c3S           { return c3Do(c3Call("ws.send", e)) }
+func c3Decl(t string, e *c3E) *c3S    { return &c3S{K: "decl", T: t, E: e} }
+func c3Set(t string, e *c3E) *c3S     { return &c3S{K: "set", T: t, E: e} }
+func c3Ret(e *c3E) *c3S               { return &c3S{K: "ret", E: e} }
+func c3RetStatus(e *c3E, st int) *c3S { return &c3S{K: "ret", E: e, St: st} }
+func c3Do(e *c3E) *c3S                { return &c3S{K: "expr", E: e} }
+func c3Send(e *c3E) *c3S              { return c3Do(c3Call("ws.send", e)) }
 func c3If(c *c3E, th []*c3S, el []*c3S) *c3S {
 	return &c3S{K: "if", E: c, B: th, C: el}
 }
@@ -112,6 +114,9 @@ func (s *c3S) String() string {
 	case "set":
 		return s.T + " = " + s.E.String()
 	case "ret":
+		if s.St != 0 {
+			return "> " + s.E.String() + " :: " + strconv.Itoa(s.St)
+		}
 		return "> " + s.E.String()
 	case "expr":
 		return s.E.String()
@@ -216,7 +221,7 @@ func (e *c3E) clone() *c3E {
 }
 
 func (s *c3S) clone() *c3S {
-	c := &c3S{K: s.K, T: s.T, E: s.E.clone(), CV: s.CV.clone()}
+	c := &c3S{K: s.K, T: s.T, E: s.E.clone(), CV: s.CV.clone(), St: s.St}
 	c.B = c3CloneList(s.B)
 	c.C = c3CloneList(s.C)
 	return c
@@ -275,6 +280,9 @@ func c3ListWeight(b []*c3S) int {
 		}
 		if s.K == "set" {
 			w += 4 // so that `t = e` may shrink to `> t`
+		}
+		if s.St != 0 {
+			w += 1 // so that `> e :: 201` may shrink to `> e`
 		}
 		if len(s.C) > 0 {
 			w += 1 // so that `if c {} else {S}` may shrink to `if true {S}`
@@ -342,13 +350,14 @@ func c3Encodings(n int, nested bool) []c3Enc {
 	return out
 }
 
-// c3FlowEncodings: the encodings of the statement-list family (the two uniform
-// statement/expression splits are enumerated in the expression and history
-// families only).
+// c3FlowEncodings: the encodings of the statement-list family (value-form
+// statements holding pointer-form expressions are left alone by the optimizer,
+// whatever the expressions: that split is enumerated in the expression and
+// history families only).
 func c3FlowEncodings(n int, nested bool) []c3Enc {
 	var out []c3Enc
 	for _, e := range c3Encodings(n, nested) {
-		if e.Name == "ptr-stmt/val-expr" || e.Name == "val-stmt/ptr-expr" {
+		if e.Name == "val-stmt/ptr-expr" {
 			continue
 		}
 		out = append(out, e)
@@ -473,7 +482,7 @@ func (s *c3S) build(stmtPtr, nestedPtr, exprPtr bool) ast.Statement {
 		}
 		return v
 	case "ret":
-		v := ast.ReturnStatement{Value: s.E.build(exprPtr)}
+		v := ast.ReturnStatement{Value: s.E.build(exprPtr), Status: s.St}
 		if stmtPtr {
 			return &v
 		}
@@ -614,6 +623,9 @@ func (p c3Prog) canonicalParts() []string {
 			v := ce(s.E)
 			return name(s.T) + " = " + v
 		case "ret":
+			if s.St != 0 {
+				return "> " + ce(s.E) + " :: status"
+			}
 			return "> " + ce(s.E)
 		case "expr":
 			return ce(s.E)
